@@ -422,7 +422,7 @@ def judge(case, line):
 
 def stage2(ctx, drv):
     import vf
-    cases = all_cases()
+    cases = sorted(all_cases(), key=lambda c: (c["state"], c["extra"]))     # cases sharing a set-up are neighbours
     lines = []
     for c in cases:
         lines.append(";".join(STATES[c["state"]] + c["extra"]) + "|" + c["call"])
@@ -431,8 +431,9 @@ def stage2(ctx, drv):
     procs, out = [], [None] * len(lines)
     env = dict(os.environ)
     env.update({"ASAN_OPTIONS": "detect_leaks=0:abort_on_error=0:exitcode=99", "UBSAN_OPTIONS": "halt_on_error=1:exitcode=98"})
+    size = (len(lines) + nsh - 1) // nsh
     for k in range(nsh):
-        part = lines[k::nsh]
+        part = lines[k * size:(k + 1) * size]          # contiguous: the driver runs a shared set-up once per group
         if not part:
             continue
         p = os.path.join(ctx.workdir, "bad.%d.cases" % k)
@@ -444,7 +445,7 @@ def stage2(ctx, drv):
         of.close()
         res = open(of.name, "rb").read().decode("utf-8", "replace").split("\n")
         for i in range(n):
-            out[k + i * nsh] = res[i] if i < len(res) and res[i] != "" else "<missing>"
+            out[k * size + i] = res[i] if i < len(res) and res[i] != "" else "<missing>"
     hist = {"ok": 0, "crash": 0, "changed": 0, "accepted": 0, "error": 0}
     by_class = {}
     covered = {}
